@@ -236,12 +236,13 @@ struct Value {
             s << int64;
             break;
         case T_DATA:
-            if (data.size() < 5) {
-                // we need to push this as a number
+            if (data.size() < 5 && CScriptNum::serialize(int_value()) == data) {
+                // the bytes are the canonical encoding of a number: push it as a number (OP_0, OP_1..OP_16, OP_1NEGATE, ...)
                 int64_t i = int_value();
                 s << i;
                 break;
             }
+            // anything else (0x00, 0x80, 0x0100, ...) must arrive on the stack byte for byte
             // fall-through
         default:
             s << data_value();
